@@ -159,6 +159,25 @@ theorem relay_header_v1_resyncs (U : Univ) (cfg : Cfg) (n : Node) (h : Nat)
   rw [ht] at hp
   simp only [gateRelayHeader, ht, hp, hnew, hpow]; simp [hv1]
 
+/-- **a first-seen memo never suppresses the resync of the relaying peer**: whatever the memo
+says, the decision about the peer that relayed a header is the memo-free gate's; the memo only
+decides whether the header is passed on. -/
+theorem memo_never_suppresses_resync (U : Univ) (cfg : Cfg) (n : Node) (h : Nat) (relayedBefore : Bool) :
+    (relayHeaderM U cfg n h relayedBefore).1 = gateRelayHeader U cfg n h := by
+  unfold relayHeaderM gateRelayHeader
+  repeat' split
+  all_goals rfl
+
+/-- hence **every** honest announcement, below the require height, of a block on top of our tip
+leads to a pull from THAT peer — also when another peer relayed the same header first -/
+theorem every_honest_announcement_pulls (U : Univ) (cfg : Cfg) (n : Node) (h : Nat) (relayedBefore : Bool)
+    (hp : n.known.contains (U h).parent = true) (hnew : n.known.any (sameId U h) = false)
+    (hpow : (U h).pow = true) (ht : (U h).parent = (U n.tip).cid)
+    (hv1 : (U n.tip).height + 1 < cfg.require) :
+    (relayHeaderM U cfg n h relayedBefore).1 = .resync := by
+  rw [memo_never_suppresses_resync]
+  exact relay_header_v1_resyncs U cfg n h hp hnew hpow ht hv1
+
 theorem relay_empty_txnset_bans (a v : Bool) : gateRelayTxns true true a v = .ban := rfl
 
 /-- **no invalid block is ever on the best chain**, whatever any number of peers send, in any
@@ -353,11 +372,13 @@ theorem handler_panics_recovered : Verif.Extracted.syncerFacts.handleRPCRecovers
 
 /-- the source order of the tests in the relay handlers is the order the model transcribes:
 outline — attachment to the tip before the work of the recomputed ID (the repaired order);
-header — work before attachment, and a resync below the require height. -/
+header — work before attachment, a resync below the require height, and that resync before any
+use of the "relayed recently" memo (`relayHeaderM`). -/
 theorem relay_check_order_as_modelled :
     Verif.Extracted.syncerFacts.outlineTipTestBeforeWorkTest = true ∧
     Verif.Extracted.syncerFacts.headerWorkTestBeforeTipTest = true ∧
-    Verif.Extracted.syncerFacts.headerResyncBelowRequire = true := by decide
+    Verif.Extracted.syncerFacts.headerResyncBelowRequire = true ∧
+    Verif.Extracted.syncerFacts.headerResyncBeforeMemo = true := by decide
 
 /-- every RPC of the gateway protocol has exactly one case in `handleRPC`, and anything else
 falls into `default` (an error, no state change): the set the harness enumerates is complete. -/
